@@ -307,19 +307,79 @@ def n_fds():
         return -1
 
 
-def queries(nl):
+def queries(nl, rng):
+    """a random program of read-only API calls (which calls, on which elements, with which arguments,
+    in which order) — "after arbitrary queries" """
+    import spydrnet as sdn
+    from spydrnet.util.selection import Selection
+    defs = [d for lib in nl.libraries for d in lib.definitions]
+    insts = [k for d in defs for k in d.children]
+    cables = [c for d in defs for c in d.cables]
+    ports = [p for d in defs for p in d.ports]
+    wires = [w for c in cables for w in c.wires]
+    pins = [q for p in ports for q in p.pins]
+    roots = [nl] + list(nl.libraries) + defs + insts + cables + ports + wires[:20] + pins[:20]
+    names = ["*"] + [x.name for x in (defs + insts + cables + ports)[:30] if x.name]
+    fns = ["get_hinstances", "get_hcables", "get_hwires", "get_hports", "get_hpins", "get_instances", "get_cables",
+           "get_definitions", "get_libraries", "get_ports", "get_wires", "get_pins", "get_netlists"]
+    sels = [Selection.INSIDE, Selection.OUTSIDE, Selection.BOTH, Selection.ALL]
     n = 0
-    for fn in ("get_hinstances", "get_hcables", "get_hwires", "get_hports", "get_hpins"):
+    log = []
+    for _ in range(rng.randint(2, 14)):
+        x = rng.random()
         try:
-            n += sum(1 for _ in getattr(nl, fn)(recursive=True))
+            if x < 0.75:
+                root = rng.choice(roots)
+                fn = rng.choice(fns)
+                kw = {}
+                if rng.random() < 0.5:
+                    kw["recursive"] = rng.random() < 0.5
+                if rng.random() < 0.3:
+                    kw["selection"] = rng.choice(sels)
+                if rng.random() < 0.3:
+                    kw["patterns"] = rng.choice(names)
+                if rng.random() < 0.15:
+                    kw["key"] = rng.choice([".NAME", "EDIF.identifier"])
+                if rng.random() < 0.15:
+                    kw["is_case"] = rng.random() < 0.5
+                log.append(fn)
+                f = getattr(root, fn, None) or getattr(sdn, fn)
+                it = f(**kw) if getattr(root, fn, None) else f(root, **kw)
+                n += sum(1 for _ in it)
+            elif x < 0.85 and insts:
+                k = rng.choice(insts)
+                n += int(bool(k.is_leaf())) + len(k.pins) + len(list(k.get_ports()))
+            elif x < 0.95:
+                n += len(canon.cnetlist(nl)["libraries"]) + len(canon.wf_problems(nl))
+            else:
+                n += len(str(nl.top_instance)) + len(repr(rng.choice(roots)))
         except Exception:  # noqa
             pass
-    for fn in ("get_instances", "get_cables", "get_definitions", "get_libraries", "get_ports", "get_wires", "get_pins"):
-        try:
-            n += sum(1 for _ in getattr(nl, fn)())
-        except Exception:  # noqa
-            pass
-    return n
+    return n, log
+
+
+def sabotage(nl, kind, rng):
+    """make the netlist one the writers must refuse"""
+    defs = [d for lib in nl.libraries for d in lib.definitions]
+    if kind == "child_ref_none":
+        kids = [k for d in defs for k in d.children]
+        if not kids:
+            return False
+        rng.choice(kids).reference = None
+    elif kind == "no_top":
+        nl.top_instance = None
+    else:
+        pool = {"unnamed_port": [p for d in defs for p in d.ports], "unnamed_instance": [k for d in defs for k in d.children],
+                "unnamed_cable": [c for d in defs for c in d.cables], "unnamed_definition": defs,
+                "unnamed_library": list(nl.libraries)}[kind]
+        pool = [x for x in pool if ".NAME" in x]
+        if not pool:
+            return False
+        del rng.choice(pool)[".NAME"]
+    return True
+
+
+SABOTAGE = ["child_ref_none", "no_top", "unnamed_port", "unnamed_instance", "unnamed_cable", "unnamed_definition", "unnamed_library"]
 
 
 def do_compose(nl, path, inp):
@@ -341,21 +401,32 @@ def case_body(inp, tmpdir):
     if nl is None:
         return {"status": "build-failed", "family": "missing"}
     fmt = inp["fmt"]
+    qrng = random.Random(stable_hash([inp.get("source"), fmt, inp.get("options"), "queries", inp.get("qseed", 0)]))
+    sab = inp.get("sabotage")
+    if sab:
+        try:
+            if not sabotage(nl, sab, qrng):
+                return {"status": "build-failed", "family": "nothing-to-sabotage"}
+        except Exception as e:  # noqa
+            return {"status": "build-failed", "family": "sabotage:" + family(e)}
     if inp.get("name_none"):
         try:
             del nl[".NAME"]
         except Exception:  # noqa
             pass
-    if fmt == "edif":
+    if fmt == "edif" and not sab:
         if any(c.reference is None for lib in nl.libraries for d in lib.definitions for c in d.children) or nl.top_instance is None:
             return {"status": "not-composable", "why": "unreferenced-instance-or-no-top"}
-        if not lib_graph_acyclic(nl):
-            return {"status": "not-composable", "why": "cyclic-dependencies"}
+    if fmt == "edif" and not lib_graph_acyclic(nl):
+        return {"status": "not-composable", "why": "cyclic-dependencies"}
     L = Labels()
     res["wf0"] = canon.wf_problems(nl)
     s0 = snapshot(nl, L)
     if fmt == "edif":
-        res["depL"], res["depD"] = edif_oracles(nl, L)
+        try:
+            res["depL"], res["depD"] = edif_oracles(nl, L)
+        except Exception:  # noqa  (sabotaged netlists: an instance without reference)
+            res["depL"], res["depD"] = [], []
     paths = [os.path.join(tmpdir, "out%d%s" % (i, EXT[fmt])) for i in range(3)]
     texts = []
     fd0 = n_fds()
@@ -366,11 +437,17 @@ def case_body(inp, tmpdir):
         except Exception as e:  # noqa
             res["status"] = "not-composable"
             res["why"] = "compose-raised:" + family(e)
-            res["s0"] = s0
-            res["s_after_raise"] = snapshot(nl, L)
-            return res
-        with open(paths[0]) as f:
-            t_now = f.read()
+        if res["status"] == "ok":
+            with open(paths[0]) as f:
+                t_now = f.read()
+    if res["status"] != "ok":
+        # (outside the except block: the traceback, and with it the composer, is gone)
+        res["s0"] = s0
+        res["s_after_raise"] = snapshot(nl, L)
+        res["wf_after_raise"] = canon.wf_problems(nl)
+        gc.collect()
+        res["fd_leak"] = n_fds() - fd0
+        return res
     res["warnings1"] = sorted(set(type(w.message).__name__ for w in wlist))
     gc.collect()
     with open(paths[0]) as f:
@@ -389,7 +466,7 @@ def case_body(inp, tmpdir):
         except Exception as e:  # noqa
             res["second_raised"] = family(e)
     s2 = snapshot(nl, L)
-    res["nq"] = queries(nl)
+    res["nq"], res["qlog"] = queries(nl, qrng)
     s2q = snapshot(nl, L)
     with warnings.catch_warnings(record=True) as wlist:
         warnings.simplefilter("always")
@@ -438,13 +515,40 @@ def judge(sr, drv, inp, res):
         sr.dist("%s.case-timeout" % fmt)
         return
     if st == "not-composable" and "s0" in res:
-        # a refused compose is outside C16's quantifier; recorded for the distribution only
+        # A refused compose is outside C16's quantifier ("composable netlists").  What it may leave
+        # behind is still bounded: only effects of the DOCUMENTED kinds (EDIF: partial re-ordering,
+        # identifiers already recorded, defaulted name); nothing at all for Verilog / EBLIF.
+        s0, sa = res["s0"], res["s_after_raise"]
+        diffs = sorted(classify_diff(s0, sa))
+        sr.case(stable_hash([inp["source"], fmt, inp.get("sabotage"), "refused"]), nontrivial=True)
+        sr.dist("%s.refused.%s" % (fmt, inp.get("sabotage", "as-built")))
+        if fmt == "edif":
+            r = drv.ask({"fn": "docEq", "a": sa, "b": s0})
+            if "error" in r:
+                sr["obligations"].append(("driver answered docEq", False, str(r)[:500]))
+            elif not r["ok"]:
+                bad = [d for d in diffs if not (d[1] in DOCUMENTED or d[2] in ("library-order", "definition-order") or
+                                                (d[0] == "netlist" and d[1] == ".NAME" and s0["name"] is None))]
+                sr.spec_failure("edif.compose.refused_compose_changes_netlist." + ("%s.%s.%s" % bad[0] if bad else "other"), brief,
+                                "compose raised (%s) and left an undocumented change: %s" % (res.get("why"), snap_diff(s0, sa)))
+            if diffs:
+                sr.dist("edif.refused.partial_documented_effects")
+        elif sa != s0:
+            sr.spec_failure("%s.compose.refused_compose_changes_netlist.%s" % (fmt, "%s.%s.%s" % diffs[0] if diffs else "other"), brief,
+                            "compose raised (%s) and changed the netlist: %s" % (res.get("why"), snap_diff(s0, sa)))
+        if res.get("wf0") == [] and res.get("wf_after_raise"):
+            sr.spec_failure("%s.compose.refused_compose_breaks_wellformedness" % fmt, brief, str(res["wf_after_raise"][:3]))
+        if res.get("fd_leak", 0) > 0:
+            sr.spec_failure("%s.compose.refused_compose_leaves_file_open" % fmt, brief,
+                            "+%d open descriptors after the failed call (after gc.collect())" % res["fd_leak"])
         return
     if st != "ok":
         return
     s0, s1 = res["s0"], res["s1"]
     sizes = res["sizes"]
-    sr.case(stable_hash([inp["source"], fmt, inp.get("options"), inp.get("api"), inp.get("name_none")]),
+    for q in set(res.get("qlog", [])):
+        sr.dist("query.%s" % q)
+    sr.case(stable_hash([inp["source"], fmt, inp.get("options"), inp.get("api"), inp.get("name_none"), inp.get("qseed")]),
             nontrivial=sizes[1] >= 2 and sizes[2] >= 1)
     sr.dist("%s.libs%d.defs%d" % (fmt, min(sizes[0], 3), min(sizes[1] // 3 * 3, 9)))
     opt = inp.get("options", {})
@@ -590,6 +694,9 @@ def make_cases(rng, n, tier):
         if fmt == "edif" and rng.random() < 0.2:
             inp["api"] = "ComposeEdif.run"
             inp["name_none"] = rng.random() < 0.6
+        if rng.random() < 0.12:
+            inp["sabotage"] = rng.choice(SABOTAGE)
+        inp["qseed"] = rng.randrange(1000)
         out.append(inp)
     return out
 
